@@ -360,6 +360,49 @@ func c09Wide(c *core.Ctx) bool {
 		c.Violation("result-depends-on-order|raw-message-next-to-tagged-records", map[string]any{"schema": "{meta: Struct{title}, authors: Slice(Struct{name: Required})} into struct{Meta{Title `json:title`}; Authors []{Name `json:full_name`}}", "input": "meta: json.RawMessage, authors: [{name: Ann}]", "distinct_results_over_40_runs": outs3})
 		return false
 	}
+	type brk struct {
+		Tags  []string `zog:"tags[]"`
+		UName string   `zog:"user[name]"`
+		Email string
+		City  string
+	}
+	type rolesT struct {
+		Roles  []string
+		Nested struct{ Roles []string }
+	}
+	shared := &z.ZogIssue{Code: "record", Message: "record-level problem"}
+	outsA, outsB, outsC := map[string]int{}, map[string]int{}, map[string]int{}
+	for i := 0; i < 40; i++ {
+		var b brk
+		m := z.Struct(z.Schema{"tags": z.Slice(z.String().Min(3)), "uName": z.String().Min(5), "email": z.String().Email(), "city": z.String().Min(5)}).
+			Parse(map[string]any{"tags[]": []any{"ok!", "x"}, "user[name]": "u", "email": "e", "city": "c"}, &b)
+		outsA[dKeys(m)]++
+		var rt rolesT
+		rq := httptest.NewRequest("GET", "/x?roles=&roles=admin&roles=dev", nil)
+		m = z.Struct(z.Schema{"roles": z.Slice(z.String()), "nested": z.Struct(z.Schema{"roles": z.Slice(z.String())})}).Parse(zhttp.Request(rq), &rt)
+		outsB[fmt.Sprintf("%q %q [%s]", rt.Roles, rt.Nested.Roles, dKeys(m))]++
+		var two struct{ Owner, Editor string }
+		fail := func(any, z.Ctx) bool { return true }
+		_ = fail
+		m = z.Struct(z.Schema{
+			"owner":  z.String().Test(z.Test{Func: func(v any, ctx z.Ctx) { ctx.AddIssue(shared) }}),
+			"editor": z.String().Test(z.Test{Func: func(v any, ctx z.Ctx) { ctx.AddIssue(shared) }}),
+		}).Parse(map[string]any{"owner": "o", "editor": "e"}, &two)
+		outsC[fmt.Sprintf("%s (%d under $root) path=%q", dKeys(m), len(m["$root"]), shared.Path)]++
+		c.Eval(3)
+	}
+	if len(outsA) != 1 || outsA["city, email, tags[][1], user[name]"] != 40 {
+		c.Violation("result-depends-on-order|keys-ending-in-a-bracket", map[string]any{"schema": "fields keyed tags[] and user[name] next to email and city, all failing", "distinct_key_sets_over_40_runs": outsA, "want": "city, email, tags[][1], user[name]"})
+		return false
+	}
+	if len(outsB) != 1 {
+		c.Violation("result-depends-on-order|one-parameter-read-by-two-nodes", map[string]any{"request": "GET /x?roles=&roles=admin&roles=dev", "schema": "{roles: Slice(String()), nested: Struct{roles: Slice(String())}}", "distinct_results_over_40_runs": outsB})
+		return false
+	}
+	if len(outsC) != 1 {
+		c.Violation("result-depends-on-order|one-hand-built-issue-reported-by-two-fields", map[string]any{"schema": "{owner, editor: String().Test(files the same path-less *ZogIssue)}", "distinct_results_over_40_runs": outsC})
+		return false
+	}
 	if o2, _ := dValidateNilEmbedded(20); len(o2) != 2 {
 		c.Violation("result-depends-on-order|Validate-with-a-nil-embedded-pointer", map[string]any{"schemas": "{Rev, By, title} and {Rev, DStamp: Ptr(Struct{Note: Required}), title} validating struct{ *DStamp(nil); Title }", "distinct_results_over_20_runs_each": o2})
 		return false
